@@ -95,6 +95,23 @@ Print Assumptions C07_action_failure_routed.
 Print Assumptions C07_no_branch_surfaced.
 Print Assumptions C07_walk_returns.
 
+(** the binding names and the node name of the statements above are those the
+    engine model writes: it takes them from Spec.Step and Spec.Walk in the
+    source of the tree under test (Gen/Names.v, written by
+    harness/cmd/genconsts on every run) *)
+Theorem C07_error_names_are_documented :
+  step_action_error_key = "actionError" /\ step_error_key = "error"
+  /\ step_last_node_key = "lastNode" /\ step_last_bindings_key = "lastBindings"
+  /\ error_node_literal = "error".
+Proof. exact error_names_documented. Qed.
+Theorem C07_error_bindings_are_documented : forall base text from,
+  error_bindings base text from
+  = bset "lastBindings" (JObj (copy_bs (st_bs from)))
+      (bset "lastNode" (JStr (st_node from)) (bset "error" text base)).
+Proof. exact error_bindings_documented. Qed.
+Print Assumptions C07_error_names_are_documented.
+Print Assumptions C07_error_bindings_are_documented.
+
 (** non-vacuity: a state without bindings at an unknown node *)
 From Sheens Require Import Model.Action.
 Example C07_nonvacuous :
